@@ -128,6 +128,8 @@ struct Ctx {
     script: Vec<St>,
     script_pos: usize,
     su_calls: u64,
+    v_calls: u64,
+    v_fault: Vec<u64>,
     sg_calls: u64,
     su_fault: Vec<u64>,
     sg_fault: Vec<u64>,
@@ -517,7 +519,17 @@ pub struct SimChecker<R: Raw> {
 }
 impl<R: Raw> StateValidityChecker<R::StateType> for SimChecker<R> {
     fn is_valid(&self, s: &R::StateType) -> bool {
-        let ans = self.world.valid(&self.inner, s);
+        let flip = CTX.with(|c| {
+            let mut g = c.borrow_mut();
+            let c = g.as_mut().expect("harness: seam used outside a run");
+            c.v_calls += 1;
+            let f = c.v_fault.contains(&c.v_calls);
+            if f {
+                c.faults_fired += 1;
+            }
+            f
+        });
+        let ans = !flip && self.world.valid(&self.inner, s);
         seam_event(Ev::Valid(enc_of::<R>(s), ans));
         ans
     }
@@ -782,10 +794,12 @@ fn run_typed<R: Raw>(scn: &Scenario, opts: &RunOpts) -> Outcome {
     };
     let mut su_fault = vec![];
     let mut sg_fault = vec![];
+    let mut v_fault = vec![];
     for f in &scn.faults {
         match f {
             FaultSpec::UniformSamplerErr { at_call } => su_fault.push(*at_call),
             FaultSpec::GoalSamplerErr { at_call } => sg_fault.push(*at_call),
+            FaultSpec::ValidityFalseAt { at_call } => v_fault.push(*at_call),
         }
     }
     CTX.with(|c| {
@@ -799,6 +813,8 @@ fn run_typed<R: Raw>(scn: &Scenario, opts: &RunOpts) -> Outcome {
             sg_calls: 0,
             su_fault,
             sg_fault,
+            v_fault,
+            v_calls: 0,
             harness_goal_draws: 0,
             n_phase: [0; 3],
             stalls: vec![],
